@@ -63,6 +63,12 @@ def scenarios(d):
         store={OTHER: {"definitions": {"wrap": {"$ref": "#/definitions/item"}, "item": {"type": "string"}}}}, remote={},
         instances=[{"x": "s"}, {"y": 5}, {"y": "s", "z": 1}, {"x": 1, "y": 1, "z": "q"}],
         refs=["#/definitions/item", OTHER + "#/definitions/item"]))
+    out.append(dict(
+        name="embedded-id-and-remote-same-url",
+        schema={"properties": {"first": {idk: REMOTE, "type": "integer"}, "second": {"$ref": REMOTE}, "third": {"$ref": REMOTE}}},
+        store={}, remote={REMOTE: {"type": "string"}},
+        instances=[{"first": 1}, {"second": "some text"}, {"first": "x", "third": 5}],
+        refs=[REMOTE]))
     if d >= 4:
         inner = {"anyOf": [{"$ref": OTHER + "#/definitions/str"}, {"$ref": "#/definitions/int"}],
                  "oneOf": [{"$ref": "#/definitions/int"}, {"$ref": OTHER + "#/definitions/num"}]}
